@@ -954,6 +954,27 @@ def fam_siamese(rng):
     return net
 
 
+def fam_multi_input(rng):
+    """several graph inputs of one shape and type consumed pairwise by elementwise operators: tensors whose live ranges
+    tie in start, end and size (allocator tie-breaks, C14 / C05 / C12)"""
+    net = Net("multi_input")
+    dt = rng.choice(["int8", "int8", "uint8"])
+    h, w, c = rng.randrange(2, 12), rng.randrange(2, 12), rng.choice([4, 8, 16])
+    k = rng.choice([2, 4, 4, 6, 8])
+    sc, zp = _rs(rng, 0.01, 0.1), _zp(rng, dt)
+    ins = [net.input([1, h, w, c], dt, sc, zp, name="input%d" % i) for i in range(k)]
+    level = ins
+    while len(level) > 1:
+        nxt = []
+        for i in range(0, len(level) - 1, 2):
+            nxt.append(elementwise(net, rng, rng.choice(["ADD", "ADD", "SUB", "MUL"]), level[i], level[i + 1]))
+        if len(level) % 2:
+            nxt.append(level[-1])
+        level = nxt
+    net.output(level[0])
+    return net
+
+
 def fam_weights_heavy(rng):
     """convolutions / fully connected layers with many weights: weight buffering, double buffering, depth slicing,
     two-core weight interleaving"""
@@ -1234,7 +1255,7 @@ def fam_multi_subgraph(rng, kind=None):
 
 FAMILIES = {
     "conv_chain": fam_conv_chain, "conv_chain_big": lambda rng: fam_conv_chain(rng, big=True), "single": fam_single_op,
-    "diamond": fam_diamond, "mixed_cpu": fam_mixed_cpu, "unsupported": fam_unsupported, "lut_heavy": fam_lut_heavy, "lut_mixed": fam_lut_mixed, "siamese": fam_siamese, "weights_heavy": fam_weights_heavy, "ew_dag": fam_ew_dag, "multi_custom": fam_multi_custom,
+    "diamond": fam_diamond, "mixed_cpu": fam_mixed_cpu, "unsupported": fam_unsupported, "lut_heavy": fam_lut_heavy, "lut_mixed": fam_lut_mixed, "siamese": fam_siamese, "multi_input": fam_multi_input, "weights_heavy": fam_weights_heavy, "ew_dag": fam_ew_dag, "multi_custom": fam_multi_custom,
 }
 FAMILIES["multi_subgraph"] = fam_multi_subgraph
 
